@@ -86,6 +86,9 @@ func runC14(c0 *h.Ctx) {
 func runC14Part(c *h.Ctx, part int) {
 	c14Field(c, part)
 	c14Points(c, part)
+	if part < 2 || c.Thorough() {
+		c14Digits(c, part)
+	}
 	if part == 0 {
 		c14SeedInLargerBuffer(c)
 	}
